@@ -955,9 +955,14 @@ impl<'a, 'b> G<'a, 'b> {
         } else {
             let t = if cyc {
                 self.f.adv("cyclic-alias");
-                match self.c.pick(3) {
+                match self.c.pick(7) {
                     0 => name.clone(),
                     1 => format!("{name} | string"),
+                    // cycles through parentheses, utility types and nested accesses
+                    3 => format!("({name})"),
+                    4 => format!("({name})[\"k\"]"),
+                    5 => format!("{name}[(\"k\")][\"j\"]"),
+                    6 => format!("Partial<{name}> & {{ k: ({name}) }}"),
                     _ => format!("{name}[\"k\"]"),
                 }
             } else {
